@@ -778,7 +778,8 @@ def hist_model_checking(ctx):
     for (nm, g) in [("time", lines_gen(5 if q else 6, 2, 2, ["T1", "T2", "T3"], blank=False)),
                     ("unwrap-later", lines_gen(6 if q else 7, 2, 2, ["T2u", "T1", "M1"], blank=True)),
                     ("unwrap-first", lines_gen(6 if q else 7, 2, 2, ["T1u", "T2", "M2u"], blank=False)),
-                    ("tail-elements", lines_gen(5 if q else 6, 2, 2, ["T1", "T2u"], blank=False, tail=True, max_code=2))]:
+                    ("tail-elements", lines_gen(5 if q else 6, 2, 2, ["T1", "T2u"], blank=False, tail=True, max_code=2)),
+                    ("tail-blank", lines_gen(4 if q else 6, 2, 2, ["T1", "T2u"], blank=True, tail=True, max_code=1))]:
         consts = dict(base_consts(dict(DEFAULT_CFG, targets=[]), [], "mc"))
         consts.update(g["consts"])
         consts["Clocks"] = [[11474, 0], [11839, 0], [12204, 0]]
